@@ -27,6 +27,11 @@ Definition wf_op (s : State) (o : Op) : Prop :=
   | OModCall c _ _ _ _ _ _ _ _ freq _ _ md _ => ctx_fresh s c /\ 0 <= freq < HEIGHT_BOUND /\ md <> 0
   | OUpdateCtx _ _ _ _ _ freq _ _ => 0 <= freq < HEIGHT_BOUND
   | OEndBlock dt => 0 <= dt /\ height s < HEIGHT_BOUND
+  (* the four keeper calls are only issued by the module that owns the context *)
+  | OModUpdate c _ _ _ _ _ freq _ =>
+      0 <= freq < HEIGHT_BOUND /\ (forall rc, get c (ctxs s) = Some rc -> c_mod rc <> 0)
+  | OModPause c _ | OModStart c _ | OModKill c _ =>
+      forall rc, get c (ctxs s) = Some rc -> c_mod rc <> 0
   | _ => True
   end.
 
